@@ -23,7 +23,10 @@ def source_texts(n):
     from vmc.core import lattice as L
     from vmc.gen import scenes
 
-    glyphs, _ = scenes.mk(L.full(scenes.DIMS, {"nglyphs": 3}))
+    # rich content on purpose: a reused shape whose first occurrence carries fill *and* opacity, palette
+    # variables, a sequence (GSUB), nested groups, several gradients -- every str-keyed set in the
+    # compiler should have something to iterate over
+    glyphs, _ = scenes.mk(L.full(scenes.DIMS, {"nglyphs": 3, "donor_paint": "opacity", "copy_paint": "var", "grp": "nested", "seqlen": 2, "where": "both"}))
     out = [(f"emoji_u{'_'.join('%04x' % c for c in g.cps)}.svg", g.svg()) for g in glyphs]
     if n == 4:
         glyphs2, _ = scenes.mk(L.full(scenes.DIMS, {"outline": "quad", "nglyphs": 1}))
@@ -266,7 +269,8 @@ def run(report, tier, only=None):
     name_items = [glyph_name(cps.from_filename(Path(nm).stem)) for nm in names]
     seeds = {}
     cover = {}
-    for label, items in (("paths", path_items), ("names", name_items), ("file-names", names)):
+    # the two-element attribute-name set nanoemoji's OT-SVG writer iterates over (svg._PAINT_ATTRIB_APPLY_PAINT_MAY_SET)
+    for label, items in (("paths", path_items), ("names", name_items), ("file-names", names), ("paint-attributes", ["fill", "opacity"])):
         found, total = seeds_for_all_orders(items)
         cover[label] = f"{len(found)}/{total}"
         if len(found) < total:
